@@ -164,6 +164,16 @@ impl C12 {
 					pats.extend(encodings(&format!("{}:sec_nonce", tag), &c.sec_nonce.0));
 					pats.extend(encodings(&format!("{}:initial_sec_key", tag), &c.initial_sec_key.0));
 					pats.extend(encodings(&format!("{}:initial_sec_nonce", tag), &c.initial_sec_nonce.0));
+					// the two fields the backend masks before storing: their own JSON
+					// members (the leading quote tells them from initial_sec_*, which hold
+					// the same bytes for an initiator)
+					for (field, val) in [("sec_key", &c.sec_key.0), ("sec_nonce", &c.sec_nonce.0)].iter() {
+						let arr: Vec<String> = val.iter().map(|b| b.to_string()).collect();
+						pats.push((
+							format!("{}:{}:stored_member_unmasked", tag, field),
+							format!("\"{}\":[{}]", field, arr.join(",")).into_bytes(),
+						));
+					}
 					self.secrets.push(Secret { what: tag, patterns: pats });
 					self.known_ctx.push(d.id);
 				}
@@ -568,7 +578,9 @@ impl Prop for C12 {
 								}
 								let field = sname.split(':').skip(1).collect::<Vec<_>>().join(":");
 								let fname = if name.ends_with(".grintx") { "grintx" } else { &name };
-								let sig = if fname == "data.mdb"
+								let sig = if field.ends_with("stored_member_unmasked") {
+									format!("secret_in_file:{}:private_context:{}", fname, field)
+								} else if fname == "data.mdb"
 									&& field.ends_with("json_array")
 									&& sname.starts_with("ctx_")
 								{
